@@ -47,9 +47,12 @@ def main():
         stats["with_true_flow"] += 1
         expected = (("main.py", res["S"]), ("main.py", res["K"]))
         got = {(tuple(a), tuple(b)) for a, b in res["flows"]}
-        if expected in got:
+        others = [(("main.py", a), ("main.py", b)) for a, b in res.get("other_hits", [])]
+        if expected in got and all(o in got for o in others):
             stats["reported_true"] += 1
             continue
+        if expected in got:
+            res["K"] = others[0][1][1]          # the missed flow is one of the additional sink sites
         links = {f for f in res["feats"] if f.startswith("link:")}
         rep.feature_violation("missed-flow", links if links else set(res["feats"]),
                               f"CPython carries the source value of line {res['S']} into the sink argument on line {res['K']}, reported flows: "
